@@ -48,14 +48,22 @@ func newAggregatedLabels(set LabelSet, by, without map[string]struct{}) *aggrega
 
 // By returns new set of labels containing only given list of labels.
 func (a *aggregatedLabels) By(labels ...logql.Label) logqlmetric.AggregatedLabels {
-	if len(labels) == 0 {
-		return a
+	// A nil `by` means "no restriction"; a non-nil (possibly empty) set is the restriction.
+	// Nested `by` intersects: a label removed by an inner aggregation cannot reappear.
+	by := make(map[string]struct{}, len(labels))
+	for _, l := range labels {
+		if a.by != nil {
+			if _, ok := a.by[string(l)]; !ok {
+				continue
+			}
+		}
+		by[string(l)] = struct{}{}
 	}
 
 	sub := &aggregatedLabels{
 		entries: a.entries,
 		without: a.without,
-		by:      buildSet(maps.Clone(a.by), labels...),
+		by:      by,
 	}
 	return sub
 }
@@ -163,7 +171,7 @@ func (a *aggregatedLabels) forEach(cb func(k, v string)) {
 		if _, ok := a.without[e.name]; ok {
 			continue
 		}
-		if len(a.by) > 0 {
+		if a.by != nil {
 			if _, ok := a.by[e.name]; !ok {
 				continue
 			}
